@@ -2400,3 +2400,6 @@ where
         layout.event(Event::Release(coord.0, coord.1));
     }
 }
+
+#[cfg(feature = "verif")]
+mod verif_hooks;
